@@ -15,8 +15,9 @@
  *   corrupt   arbitrary / damaged octets into the framers (AddressSanitizer)
  *   corrupt-frames  damaged frames in the other input encapsulations (length
  *             prefixes, raw NAL units with offset attributes)
- *   startcode3  like h264/h265 on clean streams whose very first octets are a
- *             3-octet start code (kept apart: see the final report)
+ *   startcode3  like h264/h265 on clean streams whose very first octets are
+ *             always a 3-octet start code (the framers used to look at the
+ *             last buffered octet there; fixed, kept as a focused job)
  */
 #include "tslab_common.h"
 
@@ -384,7 +385,8 @@ static void case_convert(struct vh_rng *r)
 /* ==================================================================== */
 /* elementary stream generator                                          */
 
-struct nal { uint8_t *p; size_t n; int sc; int type; };
+struct nal { uint8_t *p; size_t n; int sc; int type;
+             size_t hdr_len; };  /* slices: octets up to the end of the slice header fields the framers parse (0 otherwise) */
 struct gau { int first, count; bool key; };    /* NAL index range */
 
 struct es {
@@ -405,6 +407,7 @@ static void es_add(struct es *e, int type, const struct tsl_buf *hdr_rbsp_ebsp, 
     n->n = hdr_rbsp_ebsp->n;
     n->sc = sc;
     n->type = type;
+    n->hdr_len = 0;
 }
 
 /* NAL = header octets + EBSP(rbsp) */
@@ -414,6 +417,15 @@ static void make_nal(struct es *e, int type, const uint8_t *hdr, int hdrlen, str
     tsl_buf_put(out, hdr, (size_t)hdrlen);
     ebsp_encode(out, w->b->p, w->b->n, NULL);
     es_add(e, type, out, sc);
+}
+
+/* records, for the slice NAL just added, how many of its octets carry the
+ * slice header fields (EBSP of a prefix is a prefix of the EBSP) */
+static void slice_hdr_len(struct es *e, int hdrlen, struct bw *w, size_t hdr_octets)
+{
+    struct tsl_buf *t = tsl_buf_new();
+    ebsp_encode(t, w->b->p, hdr_octets < w->b->n ? hdr_octets : w->b->n, NULL);
+    e->nals[e->nnal - 1].hdr_len = (size_t)hdrlen + t->n;
 }
 
 static int gen_sc(struct vh_rng *r) { return vh_chance(r, 1, 3) ? 3 : 4; }
@@ -474,9 +486,11 @@ static void h264_slice(struct vh_rng *r, struct es *e, bool idr, int ref_idc, in
     bw_bits(&w, e->log2_frame_num, frame_num);
     if (idr) bw_ue(&w, idr_pic_id);
     if (e->poc_type == 0) bw_bits(&w, e->log2_poc, poc);
+    size_t hdr_octets = w.b->n + (w.n ? 1 : 0);
     slice_data(r, &w);
     uint8_t hdr = (uint8_t)((ref_idc << 5) | (idr ? 5 : 1));
     make_nal(e, idr ? 5 : 1, &hdr, 1, &w, sc);
+    slice_hdr_len(e, 1, &w, hdr_octets);
 }
 
 static void h264_misc(struct vh_rng *r, struct es *e, int type, int sc)
@@ -573,9 +587,11 @@ static void h265_slice(struct vh_rng *r, struct es *e, int type, bool first, int
     bw_ue(&w, (uint32_t)e->pps_id);
     if (first) bw_ue(&w, (uint32_t)slice_type);
     else bw_bits(&w, 9, 1 + vh_below(r, 200));      /* slice_segment_address */
+    size_t hdr_octets = w.b->n + (w.n ? 1 : 0);
     slice_data(r, &w);
     uint8_t hdr[2]; h265_hdr(hdr, type);
     make_nal(e, type, hdr, 2, &w, sc);
+    slice_hdr_len(e, 2, &w, hdr_octets);
 }
 
 static void h265_misc(struct vh_rng *r, struct es *e, int type, int sc)
@@ -606,9 +622,9 @@ static struct es *gen_es(struct vh_rng *r, bool h265, int nau, bool sc3_start)
     bool aud = vh_chance(r, 1, 2);
     bool sei = vh_chance(r, 1, 2);
     uint32_t frame_num = 0, idr_id = vh_below(r, 10), poc = 0;
-    /* a 3-octet start code as the very first octets of the stream is the
-     * business of the dedicated mode "startcode3" */
-    int first_sc = sc3_start ? 3 : 4;
+    /* the very first start code is 3 or 4 octets long (mode "startcode3":
+     * always 3) */
+    int first_sc = sc3_start ? 3 : gen_sc(r);
     for (int a = 0; a < nau; a++) {
         struct gau *g = &e->aus[e->nau++];
         g->first = e->nnal;
@@ -864,7 +880,14 @@ static void compare_sinks(const char *codec, const char *kprefix, struct tsl_sin
     for (size_t i = 0; i < a->n; i++) {
         struct tsl_rec *x = &a->recs[i], *y = &b->recs[i];
         if (x->size != y->size || memcmp(x->data, y->data, x->size))
-            vh_violation(KEY("octets"), "access unit %zu differs in octets between cuttings '%s' (%zu octets) and '%s' (%zu octets)", i, na, x->size, nb, y->size);
+        {
+            char ta[64], tb[64], ha[64], hb[64];
+            snprintf(ta, sizeof(ta), "%s", tsl_hex(x->data + (x->size > 10 ? x->size - 10 : 0), x->size > 10 ? 10 : x->size, 10));
+            snprintf(tb, sizeof(tb), "%s", tsl_hex(y->data + (y->size > 10 ? y->size - 10 : 0), y->size > 10 ? 10 : y->size, 10));
+            snprintf(ha, sizeof(ha), "%s", tsl_hex(x->data, x->size, 12));
+            snprintf(hb, sizeof(hb), "%s", tsl_hex(y->data, y->size, 12));
+            vh_violation(KEY("octets"), "access unit %zu of %zu differs in octets between cuttings '%s' (%zu octets [%s ... %s]) and '%s' (%zu octets [%s ... %s])", i, a->n, na, x->size, ha, ta, nb, y->size, hb, tb);
+        }
         if (x->flags != y->flags && !r_flags) {
             r_flags = true;
             uint32_t d = x->flags ^ y->flags;
@@ -910,7 +933,7 @@ static void case_framer(struct vh_rng *r, bool h265, bool sc3_start)
     size_t au_off[65];
     struct es *e = NULL;
     uint32_t kind = vh_below(r, 100);
-    bool clean = false;
+    bool clean = false, trunc_hdr = false;
     int nrep = 0;
     if (!h265 && kind < 12 && !sc3_start) {
         /* recorded stream of the repo, repeated */
@@ -936,7 +959,11 @@ static void case_framer(struct vh_rng *r, bool h265, bool sc3_start)
                 }
             }
         }
-        if (!sc3_start) e->nals[0].sc = 4;     /* see mode "startcode3" */
+        /* a slice NAL cut inside its header: the framers parse the header
+         * fields beyond the end of the NAL unit, in whatever follows */
+        for (int k = 0; k < e->nnal; k++)
+            if (e->nals[k].hdr_len && e->nals[k].n < e->nals[k].hdr_len) trunc_hdr = true;
+        if (trunc_hdr) VH_COUNT("framer.mutation.slice_header_truncated");
         if (!clean && vh_chance(r, 1, 2)) {
             /* trailing zero octets after some NAL units */
             for (int k = 0; k < e->nnal; k++)
@@ -978,7 +1005,7 @@ static void case_framer(struct vh_rng *r, bool h265, bool sc3_start)
         for (size_t i = 0; i < s->n && !any_stale; i++)
             if (has_stale_offsets(&s->recs[i], real_offsets(&s->recs[i], NULL, NULL))) any_stale = true;
         if (!first) { first = s; first_style = style; continue; }
-        compare_sinks(codec, sc3_start ? "startcode3:" : conformant ? "" : "malformed-stream:", first, tsl_cut_name(first_style), s, tsl_cut_name(style), in->n);
+        compare_sinks(codec, sc3_start ? "startcode3:" : conformant ? "" : trunc_hdr ? "truncated-slice-header:" : "malformed-stream:", first, tsl_cut_name(first_style), s, tsl_cut_name(style), in->n);
         vh_count_dyn("framer.%s.cuttings_compared", codec);
     }
     /* containment */
@@ -1054,8 +1081,13 @@ static void case_framer(struct vh_rng *r, bool h265, bool sc3_start)
         enum uref_h26x_encaps oe = vh_chance(r, 1, 2) ? UREF_H26X_ENCAPS_LENGTH4 : UREF_H26X_ENCAPS_NALU;
         struct tsl_sink *s = run_framer(r, h265, in->p, in->n, (enum tsl_cut_style)vh_below(r, TSL_CUT_NB), oe, false);
         if (s->n != first->n) {
+            /* on damaged streams a unit whose conversion is refused with an
+             * error event is legitimately missing */
             snprintf(key, sizeof(key), "c17:%s:encaps-changes-units", codec);
-            vh_violation(key, "%zu access units in Annex B output, %zu with output encapsulation %s", first->n, s->n, encaps_name(oe));
+            if (conformant)
+                vh_violation(key, "%zu access units in Annex B output, %zu with output encapsulation %s", first->n, s->n, encaps_name(oe));
+            else
+                vh_diag(key, "damaged stream: %zu access units in Annex B output, %zu with output encapsulation %s", first->n, s->n, encaps_name(oe));
         }
         vh_count_dyn("framer.%s.output_encaps.%s", codec, encaps_name(oe));
     }
@@ -1105,8 +1137,9 @@ static void case_corrupt_frames(struct vh_rng *r)
         ref_join(b, nals, n, in_e, false, off);
         /* the first frame stays intact: without any activated parameter set
          * the framers run upipe_h26xf_convert_frame with a NULL Annex B header
-         * and abort on an assertion (an abort on corrupt input is a
-         * diagnostic, not an out-of-bounds read; see the final report) */
+         * and abort on an assertion (ubuf != NULL in ubuf_control_va; an abort
+         * on corrupt input is a diagnostic, not an out-of-bounds read), which
+         * would cost one process restart per case */
         uint32_t c = a == 0 ? 99 : vh_below(r, 100);
         const char *what = "intact";
         if (c < 30) { tsl_corrupt(r, (enum tsl_corrupt)vh_below(r, TSL_COR_NB), b->p, b->n); what = "octets"; }
@@ -1156,16 +1189,9 @@ static void case_corrupt(struct vh_rng *r)
         if (vh_chance(r, 1, 4)) in->n = vh_below(r, (uint32_t)in->n + 1);
         VH_COUNT("corrupt.damaged_streams");
     }
-    if (in->n >= 3 && in->p[0] == 0 && in->p[1] == 0 && in->p[2] == 1) {
-        /* a bare 3-octet start code as first octets: mode "startcode3" */
-        tsl_buf_put8(in, 0);
-        memmove(in->p + 1, in->p, in->n - 1);
-        in->p[0] = 0;
-    }
     h = vh_hash_bytes(h, in->p, in->n);
-    /* Annex B output only: conversions of units with wrong NAL offsets abort
-     * on an assertion of upipe_h26xf_decaps_nal (see ...:stale-nal-offsets) */
-    enum uref_h26x_encaps oe = UREF_H26X_ENCAPS_ANNEXB;
+    enum uref_h26x_encaps oe = vh_chance(r, 2, 3) ? UREF_H26X_ENCAPS_ANNEXB : gen_encaps(r);
+    vh_count_dyn("corrupt.output_encaps.%s", encaps_name(oe));
     struct tsl_sink *s = run_framer(r, h265, in->p, in->n, (enum tsl_cut_style)vh_below(r, TSL_CUT_NB), oe, vh_chance(r, 1, 3));
     if (vh_opts.verbose >= 2) {
         fprintf(stderr, "INPUT ");
